@@ -8,7 +8,9 @@ import (
 	"bytes"
 	"fmt"
 	"math"
+	"reflect"
 	"strings"
+	"unsafe"
 
 	oe "github.com/ossrs/go-oryx-lib/errors"
 )
@@ -249,18 +251,147 @@ func vC05AfterSets(n *vC05Node) *vC05Node {
 }
 
 // ---- library values ----
-// build through the public API (NewXxx + Set) or, with api=false, by filling the property list
-// literally (keeps repeated keys; in-package access)
-func vC05Build(n *vC05Node, api bool) Amf0 {
-	fill := func(ob *objectBase) {
-		for _, p := range n.props {
-			c := vC05Build(p.val, api)
-			if api {
-				ob.Set(string(p.key), c)
-			} else {
-				ob.properties = append(ob.properties, &property{key: amf0UTF8(string(p.key)), value: c})
+// The harness does not depend on the NAMES of unexported identifiers of the package: values are
+// built through the exported API (or, for states the API cannot produce, decoded from bytes the
+// harness constructs), and the internal state is read through reflection that finds fields by
+// their type/kind: the property list = a slice of pointers to a struct with one string-kind
+// field (the name) and one interface field (the value); the separately stored element count =
+// the uint32 field of the container struct.
+
+type vC05Getter interface {
+	Get(key string) Amf0
+}
+
+// Set through the exported method (its result type is unexported, so no interface can name it)
+func vC05Set(a Amf0, key string, v Amf0) bool {
+	switch x := a.(type) {
+	case *Object:
+		x.Set(key, v)
+	case *EcmaArray:
+		x.Set(key, v)
+	case *StrictArray:
+		x.Set(key, v)
+	default:
+		return false
+	}
+	return true
+}
+
+func vC05IsContainer(a Amf0) bool {
+	switch a.(type) {
+	case *Object, *EcmaArray, *StrictArray:
+		return true
+	}
+	return false
+}
+
+func vC05FindPropSlice(rv reflect.Value) (reflect.Value, bool) {
+	if rv.Kind() != reflect.Struct {
+		return reflect.Value{}, false
+	}
+	for i := 0; i < rv.NumField(); i++ {
+		f := rv.Field(i)
+		if f.Kind() == reflect.Slice && f.Type().Elem().Kind() == reflect.Ptr && f.Type().Elem().Elem().Kind() == reflect.Struct {
+			st := f.Type().Elem().Elem()
+			nStr, nIf := 0, 0
+			for j := 0; j < st.NumField(); j++ {
+				switch st.Field(j).Type.Kind() {
+				case reflect.String:
+					nStr++
+				case reflect.Interface:
+					nIf++
+				}
+			}
+			if nStr == 1 && nIf == 1 {
+				return f, true
 			}
 		}
+	}
+	for i := 0; i < rv.NumField(); i++ {
+		if f := rv.Field(i); f.Kind() == reflect.Struct {
+			if r, ok := vC05FindPropSlice(f); ok {
+				return r, true
+			}
+		}
+	}
+	return reflect.Value{}, false
+}
+
+// the ordered property list of a container, read from its internal state
+func vC05Props(a Amf0) (keys []string, vals []Amf0, ok bool) {
+	if !vC05IsContainer(a) {
+		return nil, nil, false
+	}
+	sl, found := vC05FindPropSlice(reflect.ValueOf(a).Elem())
+	if !found {
+		panic("harness: no property list found in " + reflect.TypeOf(a).String())
+	}
+	for j := 0; j < sl.Len(); j++ {
+		e := sl.Index(j).Elem()
+		var key string
+		var val Amf0
+		for f := 0; f < e.NumField(); f++ {
+			fv := e.Field(f)
+			switch fv.Kind() {
+			case reflect.String:
+				key = fv.String()
+			case reflect.Interface:
+				if x, isA := reflect.NewAt(fv.Type(), unsafe.Pointer(fv.UnsafeAddr())).Elem().Interface().(Amf0); isA {
+					val = x
+				}
+			}
+		}
+		keys = append(keys, key)
+		vals = append(vals, val)
+	}
+	return keys, vals, true
+}
+
+// the separately stored element count (EcmaArray, StrictArray); 0 for types without one
+func vC05CountField(a Amf0) uint32 {
+	if !vC05IsContainer(a) {
+		return 0
+	}
+	rv := reflect.ValueOf(a).Elem()
+	for i := 0; i < rv.NumField(); i++ {
+		if f := rv.Field(i); f.Kind() == reflect.Uint32 {
+			return uint32(f.Uint())
+		}
+	}
+	return 0
+}
+
+// can the tree be built with NewXxx + Set alone? (unique keys per container, no stored ECMA count)
+func vC05ApiBuildable(n *vC05Node) bool {
+	if n.kind == vC05Ecma && n.count != 0 {
+		return false
+	}
+	seen := map[string]bool{}
+	for _, p := range n.props {
+		if seen[string(p.key)] || !vC05ApiBuildable(p.val) {
+			return false
+		}
+		seen[string(p.key)] = true
+	}
+	return true
+}
+
+// build through the public API (NewXxx + Set in the given order). With api=false the tree is
+// meant literally (repeated keys kept, ECMA count as given): when Set cannot produce that state
+// the value is decoded from bytes the harness constructs with its own encoder.
+func vC05Build(n *vC05Node, api bool) Amf0 {
+	if !api && !vC05ApiBuildable(n) {
+		if a, code := vC05Decode(vC05KeyedEncode(n)); code == 0 {
+			return a
+		}
+		// the decoder under test rejects the harness's encoding: fall through to the API, the
+		// oracles then see a value that differs from the tree and report it
+	}
+	fill := func(c Amf0) Amf0 {
+		for _, p := range n.props {
+			vC05Set(c, string(p.key), vC05Build(p.val, api))
+		}
+		return c
 	}
 	switch n.kind {
 	case vC05Num:
@@ -274,29 +405,17 @@ func vC05Build(n *vC05Node, api bool) Amf0 {
 	case vC05Undef:
 		return NewUndefined()
 	case vC05Obj:
-		o := NewObject()
-		fill(&o.objectBase)
-		return o
+		return fill(NewObject())
 	case vC05Ecma:
-		o := NewEcmaArray()
-		o.count = n.count // the API leaves it 0; non-zero only for literal trees
-		fill(&o.objectBase)
-		return o
+		return fill(NewEcmaArray())
 	case vC05Strict:
-		o := NewStrictArray()
-		fill(&o.objectBase)
-		return o
+		return fill(NewStrictArray())
 	}
 	panic("vC05Build: bad kind")
 }
 
-func vC05DumpProps(ob *objectBase) []vC05Prop {
-	out := []vC05Prop{}
-	for _, p := range ob.properties {
-		out = append(out, vC05Prop{key: []byte(string(p.key)), val: vC05Dump(p.value)})
-	}
-	return out
-}
+var vC05NullType = reflect.TypeOf(NewNull())
+var vC05UndefType = reflect.TypeOf(NewUndefined())
 
 func vC05Dump(a Amf0) *vC05Node {
 	switch x := a.(type) {
@@ -306,18 +425,34 @@ func vC05Dump(a Amf0) *vC05Node {
 		return &vC05Node{kind: vC05Bool, b: bool(*x)}
 	case *String:
 		return &vC05Node{kind: vC05Str, s: []byte(string(*x))}
-	case *null:
-		return &vC05Node{kind: vC05Null}
-	case *undefined:
-		return &vC05Node{kind: vC05Undef}
-	case *Object:
-		return &vC05Node{kind: vC05Obj, props: vC05DumpProps(&x.objectBase)}
-	case *EcmaArray:
-		return &vC05Node{kind: vC05Ecma, count: x.count, props: vC05DumpProps(&x.objectBase)}
-	case *StrictArray:
-		return &vC05Node{kind: vC05Strict, props: vC05DumpProps(&x.objectBase)}
 	}
-	return &vC05Node{kind: -1}
+	if a == nil {
+		return &vC05Node{kind: -1}
+	}
+	switch reflect.TypeOf(a) {
+	case vC05NullType:
+		return &vC05Node{kind: vC05Null}
+	case vC05UndefType:
+		return &vC05Node{kind: vC05Undef}
+	}
+	keys, vals, ok := vC05Props(a)
+	if !ok {
+		return &vC05Node{kind: -1}
+	}
+	n := &vC05Node{props: []vC05Prop{}}
+	switch a.(type) {
+	case *Object:
+		n.kind = vC05Obj
+	case *EcmaArray:
+		n.kind = vC05Ecma
+		n.count = vC05CountField(a)
+	case *StrictArray:
+		n.kind = vC05Strict
+	}
+	for i := range keys {
+		n.props = append(n.props, vC05Prop{key: []byte(keys[i]), val: vC05Dump(vals[i])})
+	}
+	return n
 }
 
 // error class from the root cause's message (the library has no error values)
